@@ -4,7 +4,7 @@ import itertools
 from .. import core, impl, gen, fieldlab as FL, linelab as LL, grammar as GR
 from ..core import cstr
 
-DEPS = ['Regexes', 'Tables', 'K_numarr', 'K_cigar']
+DEPS = ['Regexes', 'Tables', 'K_numarr', 'K_cigar', 'K_narange']
 MODEL_TARGETS = ['Corr/Codecc.vo', 'Corr/Linec.vo']
 LEVEL_TEXT = ("Theorems in coq/Props/C04.v: every regular expression read from gfapy's re.* call sites (regenerated on every "
               "run) equals, term for term, the grammar written from the specification (34 expressions); for the 15 "
